@@ -48,7 +48,13 @@ CLAIM = dict(
          'conclusion). Behavioural half on the REAL code: 150 (quick) / 3000 (thorough) interleavings of 2-12 assemble() calls '
          'over a pool of 96 call specs (valid, failing in every pass, name-sharing define/use families, caller dicts given / '
          'empty / absent) in one interpreter, every result incl. the dictionaries compared with a fresh-process run; earlier '
-         'calls\' dictionaries checked unchanged; API and command line under 5 PYTHONHASHSEED values.',
+         'calls\' dictionaries checked unchanged; API and command line under 5 PYTHONHASHSEED values; histories in which ONE include_dirs list '
+         'object is handed to every call (colliding include names; the list must be left as the caller built it). '
+         'FRAME (Proofs/EffectsParams.v, EffectsFrame.v): C16_only_output_dictionaries_written -- in the write set of the regenerated summary assemble() occurs '
+         'only with path_or_source (an immutable string; over-approximation), constants and labels; C16_untouched_arguments -- for every program abstracted by a '
+         'summary that passes summary_ok, an argument object whose two keys are outside the write set is left exactly as it was handed in, by every call (failing '
+         'ones included); C16_search_path_untouched / _history / C16_shared_search_path_history -- for the regenerated summary, compress and include_dirs are left '
+         'unchanged by every assemble call, and a search-path list shared by all calls of a history gives every call the result it has alone.',
     note='The theorem proves purity of the SUMMARY; that the summary over-approximates CPython running asm.py is the '
          'translator\'s soundness claim (tools/units_effects.py, trusted; its rejection of three leak-introducing edits is re-tested '
          'on every run). eval() of assembler expressions and library calls are assumed not to write module objects. Zero axioms.',
